@@ -151,6 +151,7 @@ def do_replay(eng, path: str) -> int:
 
 def main(eng) -> int:
     global _ENGINE
+    eng.execute = core.guard_execute(eng)  # a library call that raises is a violation, not a harness failure
     ap = argparse.ArgumentParser()
     ap.add_argument("--tier", default=os.environ.get("VERIF_TIER", "quick"), choices=["quick", "thorough"])
     ap.add_argument("--replay")
